@@ -1,11 +1,15 @@
 package harness
 
 import (
+	"bytes"
 	"fmt"
 	"io"
 	"math/rand"
 	"net"
 	"os"
+	"runtime"
+	"sync"
+	"sync/atomic"
 	"testing"
 	"time"
 
@@ -226,5 +230,94 @@ func TestMsgPool(t *testing.T) {
 		}
 	}
 	try(1 << 20)
+	// MakeUnique of a shared message, with the other holder's part forced in at the moment the copy starts (the Dup
+	// gate): it releases its reference, allocates a message of the same class and writes all over it.  Whatever the
+	// library still reads of the original has to be protected by the library's own reference (Msg.tla: no read of a
+	// released message); the copy carries the original bytes.
+	for _, sz := range []int{0, 1, 63, 64, 200, 1000, 5000, 60000, 70000} {
+		for rep := 0; rep < 8; rep++ {
+			m := mangos.NewMessage(sz)
+			want := payload(sz, sz+rep)
+			m.Body = append(m.Body, want...)
+			m.Header = append(m.Header, 1, 2, 3, 4)
+			m.Clone() // the other holder's reference
+			var other *mangos.Message
+			fired := 0
+			mangos.VerifSetDupGate(func(src *mangos.Message) {
+				if src != m || fired > 0 {
+					return
+				}
+				fired++
+				m.Free() // the other holder lets go
+				other = mangos.NewMessage(sz)
+				for len(other.Body) < cap(other.Body) {
+					other.Body = append(other.Body, 0xEE)
+				}
+				other.Header = append(other.Header, 0xEE, 0xEE, 0xEE, 0xEE, 0xEE, 0xEE, 0xEE, 0xEE)
+			})
+			u := m.MakeUnique()
+			mangos.VerifSetDupGate(nil)
+			intact := bytes.Equal(u.Body, want) && bytes.Equal(u.Header, []byte{1, 2, 3, 4})
+			r.Emit("mu", "sz", sz, "gate", fired, "intact", intact, "alias", u == other)
+			u.Free()
+			if other != nil && other != u {
+				other.Free()
+			}
+		}
+	}
+	// two holders of a shared message release it at the same moment (spin barrier), then each allocates: the message
+	// went back to the pool once, so the two allocations are different messages
+	{
+		rounds := count(150000, 1500000)
+		aliased := 0
+		var ready, gen atomic.Int32
+		type res struct{ m *mangos.Message }
+		ch := make(chan res, 2)
+		var mu sync.Mutex
+		var cur *mangos.Message
+		worker := func() {
+			last := int32(0)
+			for {
+				for gen.Load() == last {
+					runtime.Gosched()
+				}
+				last = gen.Load()
+				if last < 0 {
+					return
+				}
+				mu.Lock()
+				m := cur
+				mu.Unlock()
+				ready.Add(1)
+				for ready.Load() < 2 {
+				}
+				m.Free()
+				n := mangos.NewMessage(32)
+				n.Body = append(n.Body, byte(last))
+				ch <- res{n}
+			}
+		}
+		go worker()
+		go worker()
+		for i := 1; i <= rounds; i++ {
+			m := mangos.NewMessage(32)
+			m.Clone()
+			mu.Lock()
+			cur = m
+			mu.Unlock()
+			ready.Store(0)
+			gen.Store(int32(i))
+			a, b := <-ch, <-ch
+			if a.m == b.m {
+				aliased++
+			}
+			a.m.Free()
+			if b.m != a.m {
+				b.m.Free()
+			}
+		}
+		gen.Store(-1)
+		r.Emit("poolrace", "rounds", rounds, "aliased", aliased)
+	}
 	out.Add("msgpool", rec.Ev{"src": "pool"}, "pool", sim.Result{Lines: r.Lines(), Status: "ok"})
 }
